@@ -153,7 +153,12 @@ func (c *cenv) tr(x *CExpr, want string) (Term, error) {
 		if err != nil {
 			return Term{}, err
 		}
-		i, err := c.tr(x.Args[1], "Int")
+		want := "Int"
+		if strings.HasPrefix(b.Sort, "(Array") {
+			sx, _ := parseSexprs(b.Sort)
+			want = sx[0].List[1].String()
+		}
+		i, err := c.tr(x.Args[1], want)
 		if err != nil {
 			return Term{}, err
 		}
@@ -634,6 +639,28 @@ func (c *cenv) call(x *CExpr, want string) (Term, error) {
 			return Term{}, fmt.Errorf("deref of non-pointer %s", a.T)
 		}
 		return U.loadAt(a.S, p.Elem(), c.heapTerm), nil
+	case "store", "select":
+		a, err := c.tr(x.Args[0], "")
+		if err != nil {
+			return Term{}, err
+		}
+		if !strings.HasPrefix(a.Sort, "(Array") {
+			return Term{}, fmt.Errorf("%s on non-array sort %s", x.Name, a.Sort)
+		}
+		sx, _ := parseSexprs(a.Sort)
+		ks, vs := sx[0].List[1].String(), sx[0].List[2].String()
+		k, err := c.tr(x.Args[1], ks)
+		if err != nil {
+			return Term{}, err
+		}
+		if x.Name == "select" {
+			return Term{fmt.Sprintf("(select %s %s)", a.S, k.S), vs, nil}, nil
+		}
+		v, err := c.tr(x.Args[2], vs)
+		if err != nil {
+			return Term{}, err
+		}
+		return Term{fmt.Sprintf("(store %s %s %s)", a.S, k.S, v.S), a.Sort, nil}, nil
 	case "heap":
 		// heap(key): the current heap array for a heap key given as a dotted name
 		key := flatName(x.Args[0])
